@@ -630,7 +630,7 @@ def gen_op(rng, wd: World, swarm, step, script):
                         break
                 if calls:
                     kk = rng.randrange(len(calls))
-                    op["fault"] = {"kind": "num_exc", "call": kk, "exc": exc_for_site(calls[kk]), "site": calls[kk]}
+                    op["fault"] = {"kind": "num_exc", "call": kk, "exc": _fault_exc(rng, calls[kk]), "site": calls[kk]}
             return op
         if k == "mpe":
             if not mem:
@@ -829,6 +829,13 @@ def _mpe_op(rng, wd, si, ai, nmodes=None):
     return {"op": "mpe", "setup": si, "name": spec["name"], "args": args}
 
 
+def _fault_exc(rng, site):
+    """What the k-th numerical call raises: the failure typical for that routine, or - one time in five - the
+    user's Ctrl-C (a BaseException: `except Exception` blocks that swallow numerical errors by design do not stop it,
+    so the session carries on from states ordinary errors never leave behind)."""
+    return "KeyboardInterrupt" if rng.random() < 0.2 else exc_for_site(site)
+
+
 def _with_fault(rng, wd, swarm, op):
     if not swarm or not swarm["faulty"] or rng.random() >= swarm["pfault"]:
         return op
@@ -851,7 +858,7 @@ def _with_fault(rng, wd, swarm, op):
         return op
     lin = [i for i, q in enumerate(calls) if exc_for_site(q) == "LinAlgError"]
     k = rng.choice(lin) if lin and rng.random() < 0.5 else rng.randrange(len(calls))
-    op["fault"] = {"kind": "num_exc", "call": k, "exc": exc_for_site(calls[k]), "site": calls[k]}
+    op["fault"] = {"kind": "num_exc", "call": k, "exc": _fault_exc(rng, calls[k]), "site": calls[k]}
     return op
 
 
@@ -1071,7 +1078,7 @@ def _do_run(wd, op, step, before):
         else:
             setup.run_all()
         rexc = None
-    except Exception as e:
+    except (Exception, KeyboardInterrupt) as e:
         rexc = e
     fired = list(wd.plan.fired)
     after = wd.snapshot()
@@ -1102,7 +1109,7 @@ def _do_run(wd, op, step, before):
         # what it was) or - where pyOMA2 swallows the error by design - store a result that is not judged; every other
         # member either completed (equals its isolated reference) or was not reached (unchanged). What is never
         # acceptable: the call returns normally and leaves behind a result that belongs to other parameters or data.
-        wd.inc("fault.fired.num_exc")
+        wd.inc("fault.fired.interrupt" if fired[0]["exc"] == "KeyboardInterrupt" else "fault.fired.num_exc")
         outcome = "fault"
         wd.inc("probe.fault_propagated" if rexc is not None else "probe.swallowed_fault")
         if op["op"] == "run_all":
@@ -1249,7 +1256,7 @@ def _do_mpe(wd, op, step, before):
     try:
         setup.mpe(op["name"], **copy.deepcopy(op["args"]))
         rexc = None
-    except Exception as e:
+    except (Exception, KeyboardInterrupt) as e:
         rexc = e
     fired = list(wd.plan.fired)
     after = wd.snapshot()
@@ -1271,7 +1278,7 @@ def _do_mpe(wd, op, step, before):
         wd.check_isolation(before, after, step, {})
         return "gate"
     if fired:
-        wd.inc("fault.fired.num_exc")
+        wd.inc("fault.fired.interrupt" if fired[0]["exc"] == "KeyboardInterrupt" else "fault.fired.num_exc")
         st.mpe = "unknown"
         wd.inc("probe.fault_propagated" if rexc is not None else "probe.swallowed_fault")
         wd.check_isolation(before, after, step, allow)
